@@ -206,7 +206,11 @@ class CrossProductComp(ExplicitComponent):
             b = inputs[product['b_name']]
 
             # Use the following for sparse partials
-            partials[product['c_name'], product['a_name']] = \
-                np.einsum('...j,ji->...i', b, self._minus_k).ravel()
-            partials[product['c_name'], product['b_name']] = \
-                np.einsum('...j,ji->...i', a, self._k).ravel()
+            dc_da = np.einsum('...j,ji->...i', b, self._minus_k).ravel()
+            dc_db = np.einsum('...j,ji->...i', a, self._k).ravel()
+            if product['a_name'] == product['b_name']:
+                # both operands are the same input, so the two contributions add up
+                partials[product['c_name'], product['a_name']] = dc_da + dc_db
+            else:
+                partials[product['c_name'], product['a_name']] = dc_da
+                partials[product['c_name'], product['b_name']] = dc_db
